@@ -203,6 +203,13 @@ func (e *SpecEnv) ident(name string) Value {
 	if v, ok := e.lookup(name); ok {
 		return v
 	}
+	if e.c.prog.GhostVars[name] {
+		st := e.st
+		if e.inOld && e.oldSt != nil {
+			st = e.oldSt
+		}
+		return IntV{e.c.ghostVar(st, name)}
+	}
 	for i := len(e.lets) - 1; i >= 0; i-- {
 		if e.lets[i].Name == name {
 			ne := *e
@@ -226,6 +233,23 @@ func (e *SpecEnv) binary(n *ast.BinaryExpr) Value {
 		return BoolV{And(e.Bool(n.X), e.Bool(n.Y))}
 	case token.LOR:
 		return BoolV{Or(e.Bool(n.X), e.Bool(n.Y))}
+	}
+	if n.Op == token.EQL || n.Op == token.NEQ {
+		// comparison of a float field with a literal: the same unknown boolean the executor uses
+		// for the test with that source text (floating point is not modelled)
+		if _, isLit := n.Y.(*ast.BasicLit); isLit {
+			if _, isSel := n.X.(*ast.SelectorExpr); isSel {
+				if ov, ok := e.Eval(n.X).(OpaqueV); ok && ov.T != nil {
+					if b, ok := ov.T.Underlying().(*types.Basic); ok && b.Info()&types.IsFloat != 0 {
+						t := Var(feqName(n.X, n.Y), SBool)
+						if n.Op == token.NEQ {
+							t = Not(t)
+						}
+						return BoolV{t}
+					}
+				}
+			}
+		}
 	}
 	lv, rv := e.Eval(n.X), e.Eval(n.Y)
 	if n.Op == token.EQL || n.Op == token.NEQ {
@@ -272,7 +296,14 @@ func (e *SpecEnv) binary(n *ast.BinaryExpr) Value {
 		if b.IsConst() && b.Val.IsInt64() && b.Val.Int64() >= 0 && b.Val.Int64() < 4096 {
 			return IntV{Div(a, Const(pow2(int(b.Val.Int64()))))}
 		}
-		return IntV{App("shr", SInt, a, b)}
+		{
+			// variable shift of a non-negative value by less than its width: the executor's term
+			pw := App("pow2", SInt, b)
+			for i := 0; i <= 64; i++ {
+				e.fact(Implies(Eq(b, ConstI(int64(i))), Eq(pw, Const(pow2(i)))))
+			}
+			return IntV{Div(a, pw)}
+		}
 	case token.AND:
 		if b.IsConst() {
 			m := new(big.Int).Add(b.Val, bigOne)
@@ -280,7 +311,18 @@ func (e *SpecEnv) binary(n *ast.BinaryExpr) Value {
 				return IntV{Mod(a, Const(m))}
 			}
 		}
-		return IntV{App("bvand", SInt, a, b)}
+		r := App("bvand", SInt, a, b)
+		for _, f := range bitTableFacts("bvand", a, b, r) {
+			e.fact(f)
+		}
+		return IntV{r}
+	case token.OR, token.XOR:
+		nm := map[token.Token]string{token.OR: "bvor", token.XOR: "bvxor"}[n.Op]
+		r := App(nm, SInt, a, b)
+		for _, f := range bitTableFacts(nm, a, b, r) {
+			e.fact(f)
+		}
+		return IntV{r}
 	case token.EQL:
 		return BoolV{Eq(a, b)}
 	case token.NEQ:
